@@ -381,7 +381,13 @@ namespace GeographicLib {
               // Reversed test to allow escape with NaNs
               !(fabs(v) >= (tripn ? 8 : 1) * tol0_) ||
               // Enough bisections to get accurate result
-              numit == maxit2_)
+              numit == maxit2_ ||
+              // Equatorial end points and alp1 = 90deg (Lambda12 evaluates just
+              // beyond): lambda12(alp1) has its minimum here.  v > 0 then means
+              // that lon12 is within round-off of the limit of the equatorial
+              // case treated above; the equatorial geodesic is the solution and
+              // the bracket (which would become [0, 90deg]) holds no root.
+              (sbet1 == 0 && calp1 == 0 && v > 0))
             break;
           // Update bracketing values
           if (v > 0 && (numit > maxit1_ || calp1/salp1 > calp1b/salp1b))
